@@ -72,6 +72,57 @@ def emit (knowns : List (String × Schema)) (filterOk : Bool) (m : SFields) (tim
     | .ok [p, pt, g] => .emitted (.rcd [.flt time, .var dataIdx data, p, .none, pt, g, .none] custom)
     | .ok _ => .panic   -- unreachable with the three known loads of the macro
 
+/-! ## loggers with a storage (`handy::LegacySeqLogger<S: TelemetryStorage>`, `impl ExportEvent for UnboundedSender<Event>`)
+
+`new_trace` calls `storage.join(file_name)` (returns a future), spawns the writer task that awaits that future and then
+writes the header and every event received over an unbounded channel, and returns `span!(Arc::new(tx), group_id = …)`.
+The storage may FAIL: the file cannot be created (directory missing / not a directory / removed / not writable), or the
+sink answers an error on write or on flush.  Where a failure surfaces depends on the shape of the code, which the
+translator extracts (`LoggerShape`): fallible work of `join` outside the future it returns runs on the stack of
+`new_trace`'s caller. -/
+
+inductive StorageResult where
+  | ok | openFails | writeFails | flushFails
+  deriving DecidableEq, Repr
+
+structure LoggerShape where
+  /-- `join` panics / unwraps outside the returned future -/
+  joinEager : Bool
+  /-- the storage future is awaited only inside the spawned writer task -/
+  awaitsInTask : Bool
+  /-- `new_trace` itself contains a panicking call outside the spawned task -/
+  callerFallible : Bool
+  /-- `emit` = `_ = tx.send(event)` (error of a closed channel ignored) -/
+  sendErrorIgnored : Bool
+
+inductive WriterOut where
+  | running | panicked | endedWithError | notSpawned
+  deriving DecidableEq, Repr
+
+structure TraceOut where
+  /-- a panic unwinds out of `new_trace` into the task that builds the connection -/
+  callerPanics : Bool
+  writer : WriterOut
+  deriving DecidableEq, Repr
+
+def newTrace (sh : LoggerShape) (st : StorageResult) : TraceOut :=
+  if sh.callerFallible then { callerPanics := true, writer := .notSpawned }
+  else match st with
+  | .ok => { callerPanics := false, writer := .running }
+  | .openFails =>
+      if sh.joinEager || !sh.awaitsInTask then { callerPanics := true, writer := .notSpawned }
+      else { callerPanics := false, writer := .panicked }     -- `unwrap_or_else(|e| panic!(..))` inside the writer task
+  | .writeFails => { callerPanics := false, writer := .endedWithError }   -- `?` in the writer task
+  | .flushFails => { callerPanics := false, writer := .endedWithError }
+
+/-- `event!` under a span whose exporter is the channel sender of a logger whose storage behaved as `st` -/
+def emitLogged (sh : LoggerShape) (st : StorageResult) (knowns : List (String × Schema)) (m : SFields) (time : String)
+    (dataIdx : Nat) (data : Val) (custom : Kvs) : EmitOut :=
+  let t := newTrace sh st
+  if t.callerPanics then .panic
+  else if t.writer != .running && !sh.sendErrorIgnored then .panic     -- `tx.send(..).unwrap()` on a closed channel
+  else emit knowns true m time dataIdx data custom
+
 /-- every known field that IS present in the span deserialises as its declared type -/
 def contextWellTyped (knowns : List (String × Schema)) (m : SFields) : Prop :=
   ∀ p ∈ knowns, ∀ j, lookup p.1 m = some j → (de p.2 j).isSome = true
